@@ -19,6 +19,9 @@ def run(tier):
         raise common.Infra("in-process atlas driver needed for the library level")
     maxh = 3 if tier == "quick" else 4
     t = ar.run_atlas_mc(maxh, ("digest", "none"), KINDS)
+    # beyond the bound: the TLA+ proof system checks that TempInv (spec/proofs/AtlasProofs.tla) is inductive for Atlas.tla and implies
+    # NoTempAtExit - for every number of hosts, server behaviour and fault position, not only the ones TLC enumerates
+    obligations = common.run_tlapm("AtlasProofs")
     # one record per environment (a reset has two predictions: retried or not)
     envs = {}
     for r in t.records:
@@ -43,6 +46,16 @@ def run(tier):
         if "_cut" in rec:
             k = c.names[rec["fault"]["at"] - 1][0]
             c.sc.faults[k] = ("cut", min(rec["_cut"] * 7, len(c.payloads[k])))
+        if var % 2 == 1 and "_cut" not in rec:
+            # the same first fault, followed by others in case the client tries again (a client that stops at the first failure never sees
+            # them): cut -> 404, status -> cut -> 401, reset -> cut -> 403
+            for k, f in list(c.sc.faults.items()):
+                if f[0] == "cut":
+                    c.sc.faults[k] = ("seq", [f, ("cut", 0), ("status", 404, True)])
+                elif f[0] == "status":
+                    c.sc.faults[k] = ("seq", [f, ("cut", 3), ("status", 401, True)])
+                elif f[0] == "reset":
+                    c.sc.faults[k] = ("seq", [f, f, ("cut", 1), ("status", 403, True)])
         obs = ar.run_case(b, c, root)
         return rec, c, obs
 
@@ -53,7 +66,7 @@ def run(tier):
                                                            "cluster request" if rec["fault"]["at"] == 0 else "host %d" % rec["fault"]["at"], obs["level"])
         v.nontrivial((rec["n"], rec["fault"]["kind"], rec["fault"]["at"], obs["level"], rec.get("keyOk", True)))
         left = obs["tmp_left"]
-        rep = {"scenario": what, "hosts": [hp for _, hp in c.names], "faults": {k: list(f) for k, f in c.sc.faults.items()}, "temp_dir_after": left,
+        rep = {"scenario": what, "hosts": [hp for _, hp in c.names], "faults": {k: [list(x) if isinstance(x, tuple) else x for x in f] for k, f in c.sc.faults.items()}, "temp_dir_after": left,
                "exit": obs.get("rc"), "stderr": (obs.get("stderr") or b"")[:600].decode("utf-8", "replace") if obs["level"] == "cli" else obs.get("err"),
                "requests": [(r.get("kind"), r.get("host"), bool(r.get("authorization")), len(r.get("tmp") or [])) for r in obs["requests"]]}
         if obs.get("panic"):
@@ -79,7 +92,9 @@ def run(tier):
         v.spec_drift({"trace_of": owners[ti], "rejected_at_event": ei, "event": ev, "trace": traces[ti][:12]})
     shutil.rmtree(root, ignore_errors=True)
     v.cov.update({"states": t.distinct + tstates, "transitions": t.generated, "traces_validated_against_impl": acc, "traces_rejected": len(rej),
-                  "exhaustive": True, "environments": len(recs), "runs": len(work), "max_hosts": maxh, "fault_kinds": list(KINDS),
+                  "exhaustive": True, "environments": len(recs),
+                  "unbounded_proof": {"module": "spec/proofs/AtlasProofs.tla", "checker": "tlapm", "obligations_proved": obligations,
+                                      "theorems": ["InitTemp", "StepTemp (TempInv is inductive for AtlasNext, any number of hosts)", "TempInv => NoTempAtExit"]}, "runs": len(work), "max_hosts": maxh, "fault_kinds": list(KINDS),
                   "rule": "every terminal state of AtlasMC (hosts 1..max x failing position x fault kind x CLI / library) replayed with several concretisations "
                           "(status 401/404/500/403, cut offsets, ports / no ports, multi-member and empty archives, directory or dangling symlink at <out>.<k>); "
                           "verdict: the run's private TMPDIR is empty once the process has gone / the library call has returned (after DeleteClusterLogs on success)",
